@@ -40,7 +40,9 @@ pub fn universe() -> Result<Uni, String> {
     let h4b = w.honest_child(b, 2, "H4b")?;
     let h5 = w.honest_child(h4a, 1, "H5")?;
     let h6 = w.honest_child(h5, 1, "H6")?;
-    Ok(Uni { w, base: vec![0, a, b], hs: vec![h4a, h4b, h5, h6] })
+    // a second block at height 5, on the other branch (only announced in the searches that say so)
+    let h5b = w.honest_child(h4b, 3, "H5b")?;
+    Ok(Uni { w, base: vec![0, a, b], hs: vec![h4a, h4b, h5, h6, h5b] })
 }
 
 pub struct Sim {
@@ -51,12 +53,16 @@ pub struct Sim {
     pub batch: usize,
     pub peers: u8,
     pub lite3: bool,
+    /// how many of the universe's blocks peers announce (4, or 5 with the second block at height 5)
+    pub nblocks: u8,
 }
 
-/// `peers` = 2: two serving peers; 3: a third peer without fetch url; 13: three serving peers
+/// `peers` = 2: two serving peers; 3: a third peer without fetch url; 13: three serving peers;
+/// 22: two serving peers announcing all five blocks
 pub fn start(u: &Uni, batch: u64, peers: u8) -> Result<Sim, String> {
     let lite3 = peers == 3;
-    let peers = if peers == 13 { 3 } else { peers };
+    let nblocks = if peers == 22 { 5 } else { 4 };
+    let peers = if peers == 13 { 3 } else if peers == 22 { 2 } else { peers };
     let mut cfg = Cfg::new(10, crate::factory::HEARTBEAT);
     cfg.server.as_mut().unwrap().block_fetch_batch_size = batch;
     let mut n = FullNode::new(key(9), cfg, MemIO::new(), ManualClock::new(10_000_000));
@@ -87,7 +93,7 @@ pub fn start(u: &Uni, batch: u64, peers: u8) -> Result<Sim, String> {
         // the node asks the new peer for its chain; scripted peers stay silent about that
     }
     n.io.take_outbox();
-    Ok(Sim { n, inflight: BTreeSet::new(), requested: BTreeMap::new(), announced: BTreeSet::new(), batch: batch as usize, peers, lite3 })
+    Ok(Sim { n, inflight: BTreeSet::new(), requested: BTreeMap::new(), announced: BTreeSet::new(), batch: batch as usize, peers, lite3, nblocks })
 }
 
 fn hash_index(u: &Uni, h: &Hash) -> Option<u8> {
@@ -211,7 +217,7 @@ pub fn digest(s: &Sim) -> Hash {
 fn enabled(s: &Sim, _peers: u8) -> Vec<Ev> {
     let mut v = vec![];
     for p in 1..=s.peers {
-        for h in 0..4u8 {
+        for h in 0..s.nblocks {
             v.push(Ev::Announce(p, h));
         }
     }
@@ -372,6 +378,9 @@ pub fn main(tier: Tier, _replay: Option<String>) -> i32 {
         // parked in the pool's block queue while it is in flight with peer 2 and queued behind
         // H4a at peer 3
         (1, 13, vec![Ev::Announce(1, 2), Ev::Announce(2, 2), Ev::Announce(3, 0), Ev::Announce(3, 2), Ev::Fetched(1, 2), Ev::Internal], depth - 2),
+        // two blocks exist at height 5: H5 arrives before its parent and is parked in the block
+        // queue; its sibling H5b (and H5b's parent) are announced afterwards
+        (2, 22, vec![Ev::Announce(1, 2), Ev::Fetched(1, 2), Ev::Internal], depth - 2),
     ];
     for (ci, (batch, peers, prefix, more)) in configs.into_iter().enumerate() {
         let mut seen: crate::audit::MergeAudit<Vec<Ev>> = crate::audit::MergeAudit::new();
